@@ -858,6 +858,11 @@ pub fn supervise(p: &'static dyn Property, tier: Tier, replay_only: Option<&str>
                 println!("FOUND label={l} idx={}", r.idx);
             }
         }
+        if let Ok(l) = std::env::var("VERIF_FIND_SIG") {
+            if r.cx.fails.iter().any(|f| f.signature.contains(&l)) {
+                println!("FOUND sig={l} idx={}", r.idx);
+            }
+        }
         distinct.insert(r.hash);
         for l in &r.cx.labels {
             *labels.entry(l.clone()).or_insert(0) += 1;
